@@ -294,6 +294,19 @@ Proof. apply forallb_lacks. Qed.
 Lemma digits_lack x s : is_digit x = false -> forallb is_digit s = true -> lacks x s.
 Proof. apply forallb_lacks. Qed.
 
+(* what URL(text) needs of the authority (any case of the host) *)
+Record atx (b : url) : Prop := {
+  atx_user : forallb ui_char (u_user b) = true;
+  atx_pass : forallb ui_char (u_pass b) = true;
+  atx_pass_user : u_pass b <> [] -> u_user b <> [];
+  atx_host_ne : u_host b <> [];
+  atx_host_ok : host_ok (u_host b) = true;
+  atx_host_chars : forallb host_char (u_host b) = true;
+  atx_port : match u_port b with
+             | Some p => p <> 0 /\ option_eqb N.eqb (Some p) (default_port (u_scheme b)) = false
+             | None => True end;
+  atx_ascii : existsb (fun c => 127 <? c) (authority_text b) = false }.
+
 (* an absolute URL as URL(text) builds it, in the URL type's normal form *)
 Record wf_base_text (b : url) : Prop := {
   wbt_wf : wf_base b;
@@ -311,62 +324,75 @@ Record wf_base_text (b : url) : Prop := {
   wbt_query : Forall kv_ok' (u_query b);
   wbt_plain : plain (to_text b) }.
 
+Lemma wbt_atx b : wf_base_text b -> atx b.
+Proof.
+  intro W. constructor.
+  - exact (wbt_user b W).
+  - exact (wbt_pass b W).
+  - exact (wbt_pass_user b W).
+  - exact (wb_host_ne b (wbt_wf b W)).
+  - exact (wbt_host_ok b W).
+  - exact (wbt_host_chars b W).
+  - exact (wbt_port b W).
+  - exact (wbt_ascii b W).
+Qed.
+
 Definition ui_text (b : url) : str :=
   u_user b ++ (if nonempty (u_pass b) then COLON :: u_pass b else []).
 Definition hp_text (b : url) : str :=
   u_host b ++ match u_port b with Some p => COLON :: dec p | None => [] end.
 
-Lemma authority_shape b : wf_base_text b ->
+Lemma authority_shape b : atx b ->
   authority_text b = (if nonempty (u_user b) then ui_text b ++ [AT] else []) ++ hp_text b /\
   (nonempty (u_user b) = false -> u_pass b = []).
 Proof.
-  intros W. pose proof (wbt_wf b W) as Wb. unfold authority_text, ui_text, hp_text.
-  rewrite (quote_ui_id _ (wbt_user b W)), (quote_ui_id _ (wbt_pass b W)).
-  rewrite (nonempty_true _ (wb_host_ne b Wb)).
+  intros W. unfold authority_text, ui_text, hp_text.
+  rewrite (quote_ui_id _ (atx_user b W)), (quote_ui_id _ (atx_pass b W)).
+  rewrite (nonempty_true _ (atx_host_ne b W)).
   assert (NC : mem COLON (u_host b) = false).
-  { pose proof (host_lacks COLON _ eq_refl (wbt_host_chars b W)) as L. unfold mem.
+  { pose proof (host_lacks COLON _ eq_refl (atx_host_chars b W)) as L. unfold mem.
     rewrite <- (lacks_existsb COLON _ L). clear. induction (u_host b) as [|c s IH]; [reflexivity|].
     cbn [existsb]. rewrite IH, (N.eqb_sym COLON c). reflexivity. }
   rewrite NC.
   assert (PU : nonempty (u_user b) = false -> u_pass b = []).
   { intro E. destruct (u_pass b) as [|c p] eqn:Ep; [reflexivity|]. exfalso.
-    assert (u_user b <> []) by (apply (wbt_pass_user b W); rewrite Ep; discriminate).
+    assert (u_user b <> []) by (apply (atx_pass_user b W); rewrite Ep; discriminate).
     destruct (u_user b); [contradiction|discriminate]. }
   split; [|exact PU].
   f_equal.
   - destruct (nonempty (u_user b)) eqn:Eu.
     + cbn [orb]. rewrite <- app_assoc. reflexivity.
     + rewrite (PU eq_refl). reflexivity.
-  - f_equal. pose proof (wbt_port b W) as HP. destruct (u_port b) as [p|]; [|reflexivity].
+  - f_equal. pose proof (atx_port b W) as HP. destruct (u_port b) as [p|]; [|reflexivity].
     destruct HP as [H0 HD]. apply N.eqb_neq in H0. rewrite H0, HD. reflexivity.
 Qed.
 
-Lemma hp_lacks_at b : wf_base_text b -> lacks AT (hp_text b).
+Lemma hp_lacks_at b : atx b -> lacks AT (hp_text b).
 Proof.
   intro W. unfold hp_text. apply lacks_app. split.
-  - apply (host_lacks AT _ eq_refl (wbt_host_chars b W)).
+  - apply (host_lacks AT _ eq_refl (atx_host_chars b W)).
   - destruct (u_port b) as [p|]; [|reflexivity]. unfold lacks. cbn [forallb].
     change (negb (COLON =? AT)) with true. cbn [andb].
     apply (digits_lack AT _ eq_refl (digits_are_digits _)).
 Qed.
 
-Lemma ui_partition b : wf_base_text b ->
+Lemma ui_partition b : atx b ->
   partition_at COLON (ui_text b) = (u_user b, nonempty (u_pass b), u_pass b).
 Proof.
   intro W. unfold ui_text.
-  assert (L : lacks COLON (u_user b)) by (apply (ui_lacks COLON _ eq_refl (wbt_user b W))).
+  assert (L : lacks COLON (u_user b)) by (apply (ui_lacks COLON _ eq_refl (atx_user b W))).
   destruct (u_pass b) as [|c p]; cbn [nonempty].
   - rewrite List.app_nil_r. apply partition_lacks, L.
   - apply partition_app_sep, L.
 Qed.
 
-Lemma hp_partition b : wf_base_text b ->
+Lemma hp_partition b : atx b ->
   partition_at COLON (hp_text b) =
   (u_host b, match u_port b with Some _ => true | None => false end,
    match u_port b with Some p => dec p | None => [] end).
 Proof.
   intro W. unfold hp_text.
-  assert (L : lacks COLON (u_host b)) by (apply (host_lacks COLON _ eq_refl (wbt_host_chars b W))).
+  assert (L : lacks COLON (u_host b)) by (apply (host_lacks COLON _ eq_refl (atx_host_chars b W))).
   destruct (u_port b) as [p|].
   - apply partition_app_sep, L.
   - rewrite List.app_nil_r. apply partition_lacks, L.
@@ -378,7 +404,7 @@ Proof.
   induction s as [|c s IH]; [reflexivity|]. cbn [existsb]. rewrite IH, (N.eqb_sym x c). reflexivity.
 Qed.
 
-Lemma authority_lacks b x : wf_base_text b ->
+Lemma authority_lacks b x : atx b ->
   mem x gen_userinfo_safe = false -> host_char x = false -> is_digit x = false ->
   x <> AT -> x <> COLON -> lacks x (authority_text b).
 Proof.
@@ -387,11 +413,11 @@ Proof.
   assert (NCO : negb (COLON =? x) = true) by (apply negb_true_iff, N.eqb_neq; congruence).
   apply lacks_app. split.
   - destruct (nonempty (u_user b)); [|reflexivity]. unfold ui_text. apply lacks_app. split.
-    + apply lacks_app. split; [apply (ui_lacks x _ Hu (wbt_user b W))|].
+    + apply lacks_app. split; [apply (ui_lacks x _ Hu (atx_user b W))|].
       destruct (nonempty (u_pass b)); [|reflexivity]. unfold lacks. cbn [forallb]. rewrite NCO.
-      apply (ui_lacks x _ Hu (wbt_pass b W)).
+      apply (ui_lacks x _ Hu (atx_pass b W)).
     + unfold lacks. cbn [forallb]. rewrite NAT. reflexivity.
-  - unfold hp_text. apply lacks_app. split; [apply (host_lacks x _ Hh (wbt_host_chars b W))|].
+  - unfold hp_text. apply lacks_app. split; [apply (host_lacks x _ Hh (atx_host_chars b W))|].
     destruct (u_port b); [|reflexivity]. unfold lacks. cbn [forallb]. rewrite NCO.
     apply (digits_lack x _ Hd (digits_are_digits _)).
 Qed.
@@ -404,10 +430,10 @@ Proof.
   unfold url_of_text. rewrite (plain_not_excluded _ Hplain). cbv zeta.
   rewrite T in *. rewrite (parse_recompose _ U), Hu. cbn [scheme authority path query fragment or_empty].
   rewrite (wbt_scheme_ok b W).
-  rewrite (mem_lacks 91 _ (authority_lacks b 91 W eq_refl eq_refl eq_refl ltac:(discriminate) ltac:(discriminate))).
-  rewrite (mem_lacks 93 _ (authority_lacks b 93 W eq_refl eq_refl eq_refl ltac:(discriminate) ltac:(discriminate))).
+  rewrite (mem_lacks 91 _ (authority_lacks b 91 (wbt_atx b W) eq_refl eq_refl eq_refl ltac:(discriminate) ltac:(discriminate))).
+  rewrite (mem_lacks 93 _ (authority_lacks b 93 (wbt_atx b W) eq_refl eq_refl eq_refl ltac:(discriminate) ltac:(discriminate))).
   rewrite (wbt_ascii b W). cbn [negb orb].
-  destruct (authority_shape b W) as [EA PU]. rewrite EA.
+  destruct (authority_shape b (wbt_atx b W)) as [EA PU]. rewrite EA.
   assert (Pq : plain (query_text (u_query b))).
   { apply plain_recompose_parts in Hplain as [_ Pq]. rewrite Hu in Pq. cbn [query] in Pq.
     pose proof (opt_spec (query_text (u_query b))) as S. destruct (opt (query_text (u_query b))).
@@ -416,8 +442,8 @@ Proof.
   assert (Hsplit : split SL (abs_path segs) = [] :: segs).
   { apply split_abs_path. eapply Forall_impl; [|exact Hs]. apply seg_ok_noslash. }
   destruct (nonempty (u_user b)) eqn:Eu.
-  - rewrite <- app_assoc. cbn [app]. rewrite (rpartition_found AT (ui_text b) (hp_text b) (hp_lacks_at b W)).
-    rewrite (ui_partition b W), (hp_partition b W). cbv beta iota zeta. rewrite (wbt_host_ok b W).
+  - rewrite <- app_assoc. cbn [app]. rewrite (rpartition_found AT (ui_text b) (hp_text b) (hp_lacks_at b (wbt_atx b W))).
+    rewrite (ui_partition b (wbt_atx b W)), (hp_partition b (wbt_atx b W)). cbv beta iota zeta. rewrite (wbt_host_ok b W).
     rewrite is_nil_nonempty, Eu. cbn [negb andb orb].
     match goal with |- match ?X with _ => _ end = _ => assert (Hport : X = Some (u_port b)) end.
     { destruct (u_port b) as [p|]; [|reflexivity]. destruct (dec_round p) as [R1 R2].
@@ -426,8 +452,8 @@ Proof.
     rewrite Hport.
     rewrite or_empty_opt, (parse_qsl_query_text _ (wbt_query b W) Pq), or_empty_opt, Hsplit, <- Hp.
     pose proof (wbt_sep b W) as Es. clear -Es. destruct b as [sch sep us pw ho po pa qu fr]. cbn in *. subst. reflexivity.
-  - cbn [app]. rewrite (rpartition_missing AT _ (hp_lacks_at b W)).
-    rewrite (hp_partition b W). cbv beta iota zeta. rewrite (wbt_host_ok b W).
+  - cbn [app]. rewrite (rpartition_missing AT _ (hp_lacks_at b (wbt_atx b W))).
+    rewrite (hp_partition b (wbt_atx b W)). cbv beta iota zeta. rewrite (wbt_host_ok b W).
     cbn [is_nil nonempty negb andb orb].
     match goal with |- match ?X with _ => _ end = _ => assert (Hport : X = Some (u_port b)) end.
     { destruct (u_port b) as [p|]; [|reflexivity]. destruct (dec_round p) as [R1 R2].
